@@ -22,7 +22,7 @@ tvars == <<vars, l>>
 
 Reach(n) == TLCSet(42, IF TLCGet(42) < n THEN n ELSE TLCGet(42))
 E == Rec[l]
-Consume == l <= Len(Rec) /\ l' = l + 1 /\ Reach(l + 1)
+Consume == l <= Len(Rec) /\ l' = l + 1
 
 TInit ==
     /\ TLCSet(42, 1) /\ l = 1
@@ -50,7 +50,8 @@ TWrite == Consume /\ E.ev = "op" /\ E.op = "write" /\ Write(E.k)
 TFlush == Consume /\ E.ev = "op" /\ E.op = "flush" /\ Flush(E.k)
 TDrop  == Consume /\ E.ev = "op" /\ E.op = "drop" /\ DropW(E.k)
 
-TNext == TReset \/ TTurn \/ TWrite \/ TFlush \/ TDrop
+\* the register is advanced only by a step that was actually taken (all of its guards held)
+TNext == (TReset \/ TTurn \/ TWrite \/ TFlush \/ TDrop) /\ Reach(l')
 TSpec == TInit /\ [][TNext]_tvars
 
 Accepted == PrintT(<<"MECH", Len(Rec), TLCGet(42)>>)
